@@ -104,13 +104,25 @@ func vfC14Kinds() []vfC14Kind {
 	tok("groups-object", nil, func(m *vfMintCtx) { m.Claims["groups"] = map[string]interface{}{"a": []int{1}} })
 	tok("groups-number", nil, func(m *vfMintCtx) { m.Claims["groups"] = 3.5 })
 	tok("sub-number", nil, func(m *vfMintCtx) { m.Claims["sub"] = 99 })
+	for _, c := range []string{"email", "sub", "preferred_username", "groups", "email_verified", "nonce", "aud", "iss", "exp"} {
+		c := c
+		tok(c+"-empty-list", nil, func(m *vfMintCtx) { m.Claims[c] = []interface{}{} })
+		tok(c+"-null", nil, func(m *vfMintCtx) { m.Claims[c] = nil })
+		tok(c+"-list-of-list", nil, func(m *vfMintCtx) { m.Claims[c] = []interface{}{[]interface{}{}} })
+	}
 	tok("nonce-of-nobody", all, func(m *vfMintCtx) { m.Claims["nonce"] = "bm9uY2U" })
 	tok("nonce-absent", all, func(m *vfMintCtx) { delete(m.Claims, "nonce") })
 	tok("nonce-number", all, func(m *vfMintCtx) { m.Claims["nonce"] = 12 })
 	tok("payload-not-json", all, func(m *vfMintCtx) { m.Sign.Raw = "eyJhbGciOiJFUzI1NiJ9." + vfB64([]byte("not json")) + ".AAAA" })
 	// Keycloak personality: the access token is a JWT whose role claims feed the session's groups
 	at := func(name string, f func(c map[string]interface{})) {
-		ks = append(ks, vfC14Kind{Name: "at:" + name, On: "token", AT: f})
+		k := vfC14Kind{Name: "at:" + name, On: "token", AT: f}
+		switch name {
+		case "realm-access-string", "realm-roles-string", "realm-roles-numbers", "resource-access-list", "not-a-jwt":
+			// the role claims cannot be read at all: no session may be created or extended from such an answer
+			k.Reject = map[string]bool{"login": true, "refresh": true}
+		}
+		ks = append(ks, k)
 	}
 	at("realm-access-string", func(c map[string]interface{}) { c["realm_access"] = "admin" })
 	at("realm-roles-string", func(c map[string]interface{}) { c["realm_access"] = map[string]interface{}{"roles": "admin"} })
@@ -130,6 +142,11 @@ func vfC14Kinds() []vfC14Kind {
 	ks = append(ks, vfC14Kind{Name: "userinfo-email-unverified", On: "userinfo", Reject: map[string]bool{"login-profile": true}, Need: "email_verified", UInfo: func(c map[string]interface{}) { c["email_verified"] = false }})
 	ks = append(ks, vfC14Kind{Name: "userinfo-email-verified-number", On: "userinfo", UInfo: func(c map[string]interface{}) { c["email_verified"] = 0 }})
 	ks = append(ks, vfC14Kind{Name: "userinfo-groups-object", On: "userinfo", UInfo: func(c map[string]interface{}) { c["groups"] = map[string]interface{}{"a": []int{1}} }})
+	ks = append(ks, vfC14Kind{Name: "userinfo-all-empty-lists", On: "userinfo", UInfo: func(c map[string]interface{}) {
+		for k := range c {
+			c[k] = []interface{}{}
+		}
+	}})
 	ks = append(ks, vfC14Kind{Name: "userinfo-all-null", On: "userinfo", UInfo: func(c map[string]interface{}) {
 		for k := range c {
 			c[k] = nil
@@ -494,10 +511,10 @@ func vfC14(w *vfWorld) {
 								w.violate("C14", "tokens-from-rejected-refresh", kd.Name, "%s: the access token of a rejected refresh response was forwarded upstream", label)
 							}
 						}
-						if vfSessionCookieSet(r, cfg.CookieName) && cfg.Store == "cookie" && kd.Fault.Kind != "" {
+						if vfSessionCookieSet(r, cfg.CookieName) && cfg.Store == "cookie" && (kd.Fault.Kind != "" || kd.AT != nil) {
 							w.violate("C14", "session-extended-by-failed-refresh", kd.Name, "%s: a new session cookie was issued although the refresh call failed", label)
 						}
-						if w.redis != nil && kd.Fault.Kind != "" {
+						if w.redis != nil && (kd.Fault.Kind != "" || kd.AT != nil) {
 							for _, ev := range w.redis.Events()[sets:] {
 								if ev.Name == "SET" && !ev.IsLock {
 									w.violate("C14", "session-extended-by-failed-refresh", kd.Name, "%s: the stored session was rewritten although the refresh call failed", label)
